@@ -13,6 +13,8 @@ EXTRA_DESC = {
     "Kanal/NoWaitLocked.lean": "NoWaitLocked (no translated function asks wait / wait_timeout / async_blocking_wait / poll while it holds the channel lock)",
     "Kanal/Reasons.lean": "Reasons (an error is answered only for its reason: Timeout only after the clock said so, Closed / SendClosed / ReceiveClosed / CloseError only on the state test the code uses or after a failed wait; only the three timed calls can answer Timeout)",
     "Kanal/Props/C06Code.lean": "C06Code (the eventual-completion theorems transferred to infinite segment-atomic executions of the code model and of the closed machine, under weak fairness stated on the code state)",
+    "Kanal/RoleOK.lean": "RoleOK (a popped waiter is served according to its role: a sender's slot is only read, a receiver's only written; refines Own)",
+    "Kanal/Refine/Movers.lean": "Refine.Movers (the post-unlock half of a hand-off — deliverTo / claimFrom — commutes with every segment another call can run in the gap: splitting a hand-off segment changes neither results nor state)",
     "Kanal/TieDiscipline.lean": "TieDiscipline (Own and NoDangle restated on the translated definitions)",
     "Kanal/TiePtr.lean": "TiePtr (pointer.rs translated: its operation lists compute the byte model's functions for every size, memory and word; a by-value argument is consumed exactly once)",
     "Kanal/Props/C07Pin.lean": "C07Pin (neither future is Unpin, whatever T; structural Unpin derivation over the extracted fields, cross-checked by 14 rustc probes)",
